@@ -118,6 +118,14 @@ def _bits(e, names):
 def wire(R, RID='C04.wire'):
     g, rd, cons = _parse_env(R)
     f = R.func(PARSE)
+    # every header field is handed to the frame (a field left to the constructor default ignores the wire bit)
+    init0 = R.func('frame.Frame.__init__')
+    call0 = cons.ast.value
+    for field0 in ('opcode', 'fin', 'rsv1', 'rsv2', 'rsv3', 'mask'):
+        a0 = arg_of(call0, init0, field0) if isinstance(call0, ast.Call) else None
+        R.ob(RID, 'frame.%s is given to the frame constructor' % field0, a0 is not None,
+             'the frame is constructed without %s: the bit decoded from the wire never reaches Frame.validate(), the '
+             'constructor default is used' % field0, func=f, node=cons.ast, construct='frame constructed without %s' % field0)
     # the two header bytes: a tuple unpack from `yield self.read(2)`
     hdr = None
     for n in g.live_nodes():
@@ -558,6 +566,8 @@ def closecodes(R):
 
 # ----------------------------------------------------------------------------------------------- catch
 def catch(R):
+    from .common import message_templates
+    message_templates(R, 'C04.catch')      # the error constructors must not fail themselves on peer-chosen text
     q = 'websocket.WebSocket.feed'
     g = R.cfg(q)
     f = R.func(q)
